@@ -215,8 +215,12 @@ def oracle(run: runner.Run, oc: Outcome) -> None:
     t_fail: Optional[float] = None
     fail_kind: Optional[str] = None
     if trigger == 'observer-fails':
-        failing = [e for e in trace if e[2] == 'rsp' and isinstance(e[4], int) and e[4] >= 400
-                   and e[1] >= plan['t_trigger']]
+        # (the injected answers to the observer's requests only: a 422 to one of the operator's own JSON-patches is an
+        # ordinary lost race, not a failure of an essential task)
+        by_rid_ = {r.rid: r for r in run.net.requests}
+        failing = [e for e in trace if e[2] == 'rsp' and isinstance(e[4], int) and e[4] >= 500
+                   and e[1] >= plan['t_trigger'] and (rq_ := by_rid_.get(e[3])) is not None
+                   and rq_.attrs.get('kind') in ('customresourcedefinitions', 'namespaces')]
         if failing:
             # the API layer retries with its backoffs; the task fails after the last of them
             n_retries = len(spec['settings'].get('error_backoffs', [0.1, 0.2])) + 1
